@@ -328,10 +328,13 @@ func drawChannels(t *rapid.T, pl *plan) {
 // drawVideoSize hits the buffer boundaries on the way: 2 KiB pooled frame
 // buffer, 4 KiB gorilla write buffer, 16-bit length limit; several large
 // packets back to back exceed the 128 KiB buffered.Conn.
-func drawVideoSize(t *rapid.T, big bool) int {
+func drawVideoSize(t *rapid.T, big, bursty bool) int {
 	k := rapid.IntRange(0, 15).Draw(t, "sizeClass")
 	if !big && k >= 11 {
 		k -= 8
+	}
+	if bursty && k < 6 {
+		k += 10
 	}
 	switch k {
 	case 0, 1:
@@ -357,7 +360,7 @@ func drawVideoSize(t *rapid.T, big bool) int {
 	}
 }
 
-func drawPkt(t *rapid.T, big bool) pktSpec {
+func drawPkt(t *rapid.T, big, bursty bool) pktSpec {
 	sp := pktSpec{Fill: "ramp"}
 	switch f := rapid.IntRange(0, 9).Draw(t, "fill"); f {
 	case 0:
@@ -370,7 +373,7 @@ func drawPkt(t *rapid.T, big bool) pktSpec {
 	switch c := rapid.IntRange(0, 9).Draw(t, "channel"); {
 	case c <= 5:
 		sp.Ch = rtp.ChannelVideo
-		sp.Size = drawVideoSize(t, big)
+		sp.Size = drawVideoSize(t, big, bursty)
 		sp.Key = rapid.IntRange(0, 5).Draw(t, "key") == 0
 	case c <= 7:
 		sp.Ch = rtp.ChannelAudio
@@ -387,12 +390,21 @@ func drawPkt(t *rapid.T, big bool) pktSpec {
 }
 
 // genPlan draws a windowed case: <= 40 packets, <= 7 scripted requests, 1..3 windows.
-func genPlan(t *rapid.T, transport string) *plan {
+func genPlan(t *rapid.T, transport string, alwaysBursty bool) *plan {
 	pl := &plan{Transport: transport}
 	drawChannels(t, pl)
-	n := rapid.IntRange(3, 40).Draw(t, "packets")
+	// a bursty case: mostly large packets, hardly any waiting, so that the 128 KiB
+	// connection buffer overflows while frames and responses are written
+	bursty := alwaysBursty
+	n := 0
+	if alwaysBursty {
+		n = rapid.IntRange(8, 40).Draw(t, "burstyPackets")
+	} else {
+		n = rapid.IntRange(3, 40).Draw(t, "packets")
+		bursty = rapid.IntRange(0, 3).Draw(t, "bursty") == 0
+	}
 	for i := 0; i < n; i++ {
-		sp := drawPkt(t, true)
+		sp := drawPkt(t, true, bursty)
 		if i == 0 { // at least one packet reaches the session whatever was set up
 			sp.Ch = rtp.ChannelVideo
 			sp.Size = clampSize(sp.Ch, sp.Size)
@@ -406,7 +418,7 @@ func genPlan(t *rapid.T, transport string) *plan {
 			reqs++
 		}
 		pl.Steps = append(pl.Steps, step{Kind: "pub", Pkt: i})
-		if rapid.IntRange(0, 3).Draw(t, "syncAfter") == 0 {
+		if k := rapid.IntRange(0, 11).Draw(t, "syncAfter"); k == 0 || (!bursty && k < 3) {
 			pl.Steps = append(pl.Steps, step{Kind: "sync"})
 		}
 	}
@@ -431,7 +443,7 @@ func genStress(t *rapid.T, transport string) *plan {
 	n := rapid.IntRange(150, 500).Draw(t, "packets")
 	bigLeft := 24 // keeps a case below ~2 MB
 	for i := 0; i < n; i++ {
-		sp := drawPkt(t, bigLeft > 0)
+		sp := drawPkt(t, bigLeft > 0, false)
 		if sp.Size > 20000 {
 			bigLeft--
 		}
